@@ -318,6 +318,8 @@ SPECS["C09"] = dict(
           "The -race binary is run as 3 (quick) / 10 (thorough) separate processes with GORACE=halt_on_error=0 log_path=...; every 'WARNING: DATA RACE' block is parsed, de-duplicated by the pair of outermost module frames "
           "and innermost frames, and reported. Every concurrent result is compared with the result of the same call made alone; a SHA-256 canary over all corpus tokens/runes/dictionary is taken before and after. "
           "Calls lasting >= 0.8 s are not judged for equality (go-diff's 1 s deadline). "
+          "Every odd goroutine opens the storm with a never-seen input (a short license with six process-unique words carrying character references: AT&amp;T<n>, &quot;..&quot;, R&#38;D<n>, &copy;<n>, ..) "
+          "that no earlier call in the process has tokenized - the sequential reference calls warm up anything keyed by word outside the classifier - and whose reference result is computed alone after the storm. "
           "CLI fan-out part (-race, 2 processes): the identify_license backend's ClassifyLicenses with 2/7/64/1000 tasks over 20-80 files of which some cannot be read (missing, dangling link, directory): "
           "result multiset == sequential Match per file, exactly one error per unreadable file. Non-trivial = storm in which >= 2 calls were observed open at the same time; distinct = (process, storm)."),
     assumptions=list(V2_ASSUME) + ["the race detector only sees interleavings that occur; reports vary from run to run, hence repeated processes"],
@@ -340,7 +342,7 @@ SPECS["C11"] = v2spec(
 SPECS["C12"] = v2spec(
     "TestVerifC12",
     title="loading a corpus directory equals adding each of its files",
-    rule=("case = (generated directory tree, spelling of its path). Trees: 2-13 files at category/name/variant depth (names with spaces, dots, unicode, directories named *txt, suffixes .txt/txt/.mtxt/.TXT/none, empty files) "
+    rule=("case = (generated directory tree, spelling of its path). Trees: 2-13 files at category/name/variant depth (names with spaces, dots, unicode, directories named *txt, suffixes .txt/txt/.mtxt/.TXT/none, empty files; one tree in three holds a document of 70-310 KB, larger than any embedded asset) "
           "plus junk that must be ignored (shallower *.txt files, other suffixes); every fourth tree also has deeper files and *txt directories at depth 3 (only the no-panic claim applies). "
           "Spellings: absolute, absolute/, relative, ./rel, rel/, ./rel/, rel//, rel/., '.', ../parent/rel, symlink/. Oracle: no panic; no ignored file in the corpus; for exact-depth trees LoadLicenses returns nil and the loaded "
           "classifier equals (white-box key set and per-key word sequences; Match results on planted/edited/filler queries) one built with AddContent per file. One case compares assets.DefaultClassifier() with "
@@ -479,7 +481,7 @@ SPECS["C14"] = dict(
     rule=("history = 2-16 client goroutines issuing ~200 AddValue/MultipleMatch/NearestMatch calls on 2-5 keys of one fresh stringclassifier.Classifier (lazy search sets); unknown string s_k contains value v_k only, "
           "so MultipleMatch(s_k)/NearestMatch(v_k) report k iff AddValue(k) has taken effect and a second AddValue(k) must fail. Every call is recorded {client, op, key, call, return, result} from one monotonic clock and the "
           "history is checked offline with porcupine v1.3.0 against a per-key boolean model (partitioned by key, 60 s cap; Unknown = inconclusive). One case in six is a read-only storm on a classifier whose search sets "
-          "are still lazy, compared with sequential results; one in six a storm of 2-12 callers on a classifier with 12-48 mutually similar values (every value has candidate ranges in "
+          "are still lazy, compared with sequential results (every other one with a first value of 3200 words, over 20 KB, so that size-dependent paths run in several goroutines at once); one in six a storm of 2-12 callers on a classifier with 12-48 mutually similar values (every value has candidate ranges in "
           "every call: values x callers comparisons in flight), which must return (watchdog) and, where the call made alone has no equal confidences, return the same. All of it runs in -race binaries (3/10 separate processes, GORACE log parsed, reports de-duplicated by outermost module frames). "
           "Non-trivial = every history/storm; distinct = (process, case)."),
     assumptions=list(V1_ASSUME) + ["porcupine's verdict is relative to the recorded call/return timestamps (one monotonic clock per process)"],
@@ -847,8 +849,8 @@ SPECS["C19"] = dict(
     module="v2", pkgdir=".", harness=["v2"],
     title="the identify_license CLI reports what the library finds",
     technique="differential: CLI child process (built from the tree, also with -race) vs in-process Match on the same files",
-    rule=("tree = 1-60 generated files in nested directories (licensed, edited, several licenses, header in a comment, unlicensed, empty, notice only, no trailing newline, CRLF, a line of 70 000-200 000 bytes "
-          "before/inside/after the license, invalid UTF-8; every sixth tree has no license at all). For each tree the CLI built from the working tree is run 3-5 times with seeded flag combinations "
+    rule=("tree = 1-60 generated files in nested directories (licensed, edited, several licenses, header in a comment, unlicensed, empty, notice only, no trailing newline, CRLF with every fifth line ending in CR CR LF, a line of 70 000-200 000 bytes "
+          "before/inside/after the license, invalid UTF-8; every sixth tree has no license at all; every third tree also has a symbolic link to one of its files, expected to be reported like its target). For each tree the CLI built from the working tree is run 3-5 times with seeded flag combinations "
           "{-headers} x {stdout only, -json, -json -include_text} x -tasks in {1,2,7,1000}, given the directory or the file list; multi-file trees are also run with the -race build (reports parsed). Oracle: per file, the "
           "multiset of printed matches equals what Match returns in-process on assets.DefaultClassifier() for the file's bytes (Header matches only with -headers), lines are sorted by confidence, the JSON classifications "
           "equal them, each Text equals lines StartLine..EndLine of the file, exit status 0 iff at least one match was printed. case = tree (expected results) ; CLI invocations are counted in coverage. "
